@@ -384,11 +384,63 @@ def r5_paired_map(ctx):
     ctx.check(ok, "apply_despawn/removes-mapping-it-despawns", site_of(ad), "an entity is despawned on the client without its map entry having been removed")
 
 
+def r6_exact_filters(ctx):
+    """Structural records are written for every client the entity is not hidden from: the filter on despawns, removals and
+    changes is exactly the not-hidden test (nothing stricter), so a client that holds the entity always sees the change."""
+    F = ctx.F
+    from rules.C08 import visibility_guards, _client_items, DATA_WRITERS, VIS
+    EXACT = {"entity_visibility != Hidden", "is_visible", "is_none_or(is_visible)", "no visibility component", "state() != Hidden"}
+    n = 0
+    for fn_name in ("server::collect_despawns", "server::collect_removals", "server::collect_changes"):
+        body = ctx.fn(fn_name)
+        for bb, t in body.calls():
+            d = callee_decl(t)
+            if d not in DATA_WRITERS:
+                continue
+            items = _client_items(body, t["args"][0])
+            gs = [g for g in visibility_guards(F, body, bb) if g[1] & items]
+            if not gs:
+                # lost-visibility despawns come from drain_lost(): no visibility filter applies
+                continue
+            n += 1
+            key = "%s/%s@%s" % (short(fn_name), d.rsplit("::", 1)[-1], body.blocks[bb].term.get("span", "").rsplit(":", 1)[-1])
+            strict = [g[0] for g in gs if g[0] not in EXACT]
+            ctx.check(not strict, key, site_of(body, bb),
+                      "the record is written only under `%s`, which is stricter than `not hidden`: a client that holds the entity (e.g. visibility regained within the tick) "
+                      "does not receive this structural change" % strict, "filter is exactly the not-hidden test (%s)" % sorted({g[0] for g in gs}))
+            # no further non-visibility condition may suppress a despawn/removal record
+            if d.endswith("add_removals") or d.endswith("add_despawn"):
+                other = []
+                for (s_, c_, o_) in required_outcomes(F, body, bb):
+                    if is_next_switch(body, c_):
+                        continue
+                    if c_["kind"] == "boolcall" and (c_["name"].endswith("is_visible") or c_["name"].endswith("is_none_or")):
+                        continue
+                    if c_["kind"] == "variant":
+                        continue
+                    other.append((c_["kind"], c_.get("name") or c_.get("rel"), sorted(map(str, o_))))
+                ctx.check(not other, key + "/no-extra-condition", site_of(body, bb), "the record is additionally suppressed by %s" % other)
+    if n < 6:
+        ctx.bad("sites", "", "only %d filtered structural writes found" % n, kind="anchor-missing")
+    # is_visible itself is exactly `state != Hidden` (decision table, shared with C08.R4)
+    import absint
+    iv = ctx.fn("ClientVisibility::is_visible")
+    try:
+        _, table = absint.tables(F)
+    except absint.Unmodelled as e:
+        ctx.bad("ClientVisibility/queries-modelled", site_of(iv), "the abstract interpreter met a construct it does not model: %s" % e, kind="anchor-missing")
+        return
+    ctx.check(table == {"Hidden": {False}, "Gained": {True}, "Visible": {True}}, "is_visible/true-for-Gained-and-Visible", site_of(iv), "is_visible maps %s" % table)
+
+from rules.first_sight import r_first_sight
+
 RULES = [
     ("C03.R1", "one update message per client and tick (single writer of the update channel)", r1_one_update_message, 4, ["default", "all-features", "server-only"]),
     ("C03.R2", "update-message sections: writer, reader and flags agree on order, content and framing", r2_sections, 16, ["default", "all-features"]),
     ("C03.R3", "ServerUpdateTick is written only from a decoded update message (and the reset)", r3_update_tick, 4, ["default", "all-features", "client-only"]),
     ("C03.R4", "every mapped client entity carries the replication marker", r4_marker, 4, ["default", "all-features"]),
     ("C03.R5", "the two directions of the entity map are mutated together; despawn removes its mapping", r5_paired_map, 8, ["default", "all-features", "client-only"]),
+    ("C03.R6", "despawn / removal / change records are filtered by exactly the not-hidden test", r6_exact_filters, 7, ["default", "all-features", "server-only"]),
+    ("C03.R7", "first-sight completeness: a client that does not hold an entity yet (just authorized, just spawned, visibility gained) is sent every replicated component", r_first_sight, 14, ["default", "all-features", "server-only"]),
 ]
 THOROUGH_CONFIGS = ["default", "all-features", "server-only", "client-only"]
